@@ -381,6 +381,20 @@ def early_join_with_successor(jt: str = "DISCRIMINATOR") -> dict:
     }
 
 
+def skippable_tasks() -> dict:
+    """Stages whose first / middle / only task is a disabled SkippableTask."""
+    return {
+        "name": "skippable_tasks",
+        "confluent": True,
+        "stages": [
+            st("a", [], [{"kind": "disabled"}, dict(OK, out=["a_o"])]),
+            st("b", ["a"], [dict(OK, out=["b_o"]), {"kind": "disabled"}, dict(OK, out=["b_o2"])]),
+            st("c", ["a"], [{"kind": "disabled"}]),
+            st("d", ["b", "c"], [dict(OK, out=["d_o"]), {"kind": "disabled"}]),
+        ],
+    }
+
+
 def stopped_branch() -> dict:
     """r -> x (fails with failPipeline=False: ends STOPPED, the workflow goes on) next to r -> a -> y: whatever the
     order in which x's CompleteWorkflow and the other branch's messages arrive, a and y run."""
@@ -419,6 +433,7 @@ CONFLUENT_FAMILY = [
     or_split_in_loop,
     early_join_with_successor,
     lambda: early_join_with_successor("N_OF_M"),
+    skippable_tasks,
 ]
 
 
@@ -466,6 +481,9 @@ def random_dag(rng: random.Random, max_stages: int = 7, allow_fail: bool = True,
             s["t"][0] = {"kind": "poll", "n": rng.randint(1, 2), "out": [f"{r}_p"]}
         if rng.random() < 0.06:
             s.setdefault("ctx", {})["stageEnabled"] = False
+        if rng.random() < 0.07:
+            # a SkippableTask that is disabled: the engine skips it and goes on with the next task / the stage's completion
+            s["t"][rng.randrange(len(s["t"]))] = {"kind": "disabled"}
         if rng.random() < 0.15:
             s.setdefault("ctx", {})[rng.choice(keys)] = f"own.{r}"
         stages.append(s)
